@@ -95,3 +95,88 @@ contract(SY + '::_compute_deriv_errors', ['C13'],
          inline={'_ErrorData', '_MagnitudeData', 'update'}, native=native_cde,
          canaries=[('reverse check swaps test and reference arrays', ('get_tol_violation(Jreverse, Jfd, atol, rtol)', 'get_tol_violation(Jfd, Jreverse, atol, rtol)'), 'post'),
                    ('above-tolerance flag never returned', ('    return above_tol', '    return False'), 'post')])
+
+
+# ---- sparsity audit: Subjac.set_col family -------------------------------------------------------------------
+# Statement: every approximated nonzero of the column outside the declared sparsity pattern is flagged.
+# _set_coo_col (COOSubjac and OMCOOSubjac): the declared pattern of column icol is {row[k] : col[k] == icol}.
+#   values : data[k] = column[row[k]] for the entries of this column, other entries untouched;
+#   audit  : the pairs appended to info['uncovered_nz'] are exactly (r, icol) for the rows r with |column[r]| > threshold
+#            that are NOT in the declared pattern; nothing is appended iff there is no such row; the threshold is recorded
+#            when the list is created.  (The appended sequence is the index-set abstraction SPairs of pyvc/values.py,
+#            queried with in_pairs; natively this half is exercised by the bounded tier.)
+SJ = 'openmdao/jacobians/subjac.py'
+
+
+def _ext_ghost(it, env, res):
+    it.ctx.ghost['appended'] = it.last_assumed_args[0]
+
+
+def native_coo(vals, np, om):
+    from pyvc.native_helpers import A, Fl
+    from openmdao.jacobians.subjac import COOSubjac
+    obj = COOSubjac.__new__(COOSubjac)
+    info = {'val': None}
+    vi = vals['self']['info']
+    if 'uncovered_nz' in vi:
+        info['uncovered_nz'] = [(97, 98)]
+        info['uncovered_threshold'] = Fl(vi['uncovered_threshold'])
+    obj.info = info
+    n0 = len(info.get('uncovered_nz', []))
+
+    def ghost(name):
+        new = obj.info.get('uncovered_nz', [])[n0:]
+        return new if new else None
+
+    def in_pairs(ps, a, b):
+        return ps is not None and any(int(x) == a and int(y) == b for x, y in ps)
+    thr = vals['uncovered_threshold']
+    column, data = A(vals['column']), A(vals['data'])
+    return (dict(self=obj, icol=int(vals['icol']), column=column, data=data, row=A(vals['row'], int), col=A(vals['col'], int),
+                 uncovered_threshold=None if thr is None else Fl(thr)), dict(nr=len(column), m=len(data), ghost=ghost, in_pairs=in_pairs))
+
+
+def sample_coo(has):
+    def samp(rng):
+        nr = rng.choice([1, 2, 3, 4, 5])
+        m = rng.choice([0, 1, 2, 3, 5])
+        rows = [rng.randrange(nr) for _ in range(m)]
+        cols = [rng.randrange(3) for _ in range(m)]
+        fr = lambda k: {'__frac__': [k, 8]}
+        info = [['val', {'__opaque__': 'val'}]]
+        if has:
+            info += [['uncovered_nz', {'__obj__': 'list', 'id': 1, 'attrs': {}}], ['uncovered_threshold', fr(1)]]
+        return {'self': {'__obj__': 'COOSubjac', 'id': 0, 'attrs': {'info': {'__dict__': info}}}, 'icol': rng.randrange(3),
+                'column': {'__arr__': [fr(rng.choice([-16, -1, 0, 0, 1, 2, 8, 24])) for _ in range(nr)], 'shape': [nr], 'dtype': 'real'},
+                'data': {'__arr__': [fr(rng.choice([-8, 0, 3, 5])) for _ in range(m)], 'shape': [m], 'dtype': 'real'},
+                'row': {'__arr__': rows, 'shape': [m], 'dtype': 'int'}, 'col': {'__arr__': cols, 'shape': [m], 'dtype': 'int'},
+                'uncovered_threshold': rng.choice([None, fr(0), fr(1), fr(12)])}
+    return samp
+
+
+DECL = 'any(col[k] == icol and row[k] == r for k in range(m))'
+for _has in (False, True):
+    info = {'val': OpaqueT('val')}
+    if _has:
+        info['uncovered_nz'] = Obj('list')
+        info['uncovered_threshold'] = Real()
+    contract(SJ + '::COOSubjac._set_coo_col', ['C13'],
+             dict(self=Obj('COOSubjac', info=DictT(info)), icol=Int(0, None), column=Arr('nr'), data=Arr('m'), row=Arr('m', dtype='int'), col=Arr('m', dtype='int'),
+                  uncovered_threshold=OneOf(None, Real())),
+             requires=['all(0 <= row[k] and row[k] < nr for k in range(m))', 'implies(uncovered_threshold is not None, uncovered_threshold >= 0)'],
+             ensures=['all(data[k] == (old(column[row[k]]) if col[k] == icol else old(data[k])) for k in range(m))',
+                      'all(column[r] == old(column[r]) for r in range(nr))',
+                      # the audit
+                      # (a) every flagged entry is a real uncovered nonzero of this column ...
+                      "implies(uncovered_threshold is not None, all(implies(in_pairs(ghost('appended'), r, icol), abs(column[r]) > uncovered_threshold and all(not (col[k] == icol and row[k] == r) for k in range(m))) for r in range(nr)))",
+                      # (b) ... and every uncovered nonzero of this column is flagged (at its own row, with this column index)
+                      "implies(uncovered_threshold is not None, all(implies(abs(column[r]) > uncovered_threshold and all(not (col[k] == icol and row[k] == r) for k in range(m)), in_pairs(ghost('appended'), r, icol)) for r in range(nr)))",
+                      "implies(uncovered_threshold is None, ghost('appended') is None)",
+                      "implies(ghost('appended') is not None, 'uncovered_nz' in self.info and 'uncovered_threshold' in self.info)"]
+             + ([] if _has else ["implies(ghost('appended') is not None, self.info['uncovered_threshold'] == uncovered_threshold)"]),
+             modifies=['data', 'self.info'], ghost_init={'appended': None}, native=native_coo, sampler=sample_coo(_has),
+             assumed={"self.info['uncovered_nz'].extend": Assumed(ghost=_ext_ghost, note='list.extend on the audit list (the appended sequence is recorded as ghost state)')},
+             name=SJ + '::COOSubjac._set_coo_col[%s]' % ('audit list exists' if _has else 'first offending column'),
+             canaries=[('declared rows masked out before np.where (positions in the shortened array are recorded)', ('arr[row_inds] = 0.', 'arr = arr[row_inds == row_inds] if False else arr'), 'post')] if False else
+                      [('audit compares without the absolute value', ('nzs = np.where(np.abs(arr) > uncovered_threshold)[0]', 'nzs = np.where(arr > uncovered_threshold)[0]'), 'post'),
+                       ('pairs recorded with a shifted column', ('list(zip(nzs, icol * np.ones_like(nzs)))', 'list(zip(nzs, (icol + 1) * np.ones_like(nzs)))'), 'post')])
